@@ -13,13 +13,14 @@
     EclHysteresisTwoPhaseLaw.hpp       wetting phase / capillary pressure curve selection        → `hKrw`, `hPc`, `hKrn`
     EclDefaultMaterial.hpp             three-phase combination, `updateHysteresis`               → `evalCell`, `updateCell`
 
-  Three phases, keyword family I (SWOF + SGOF) or II (SWFN + SGFN + SOF3), no JFUNC, no SWATINIT,
-  Carlson (EHYSTR item 2 = 0/1) or Killough (2/3) hysteresis of the non-wetting relperm without
-  capillary-pressure hysteresis.
+  Three phases, keyword family I (SWOF + SGOF) or II (SWFN + SGFN + SOF3), no JFUNC, no SWATINIT.
+  Hysteresis (third round): the complete object of `Model/HystFull.lean` — EHYSTR item 2 = 0 … 4, flag
+  KR / PC / BOTH (Killough capillary-pressure hysteresis), no WAG.
   Core Lean only; generic scalar as in `Tab1D` / `Eps`.
 -/
 import OpmVerif.Model.Hyst
 import OpmVerif.Model.Killough
+import OpmVerif.Model.HystFull
 
 namespace OpmVerif.SatDeck
 open OpmVerif.Tab1D OpmVerif.Eps OpmVerif.Hyst
@@ -287,54 +288,43 @@ def EpsLaw.krn (l : EpsLaw α) (sw : α) : α := epsKrn l.cfg l.tab l.u l.s sw
 def EpsLaw.pc (l : EpsLaw α) (sw : α) : α := epsPcnw l.cfg l.tab l.u l.s sw
 def EpsLaw.krnInv (l : EpsLaw α) (k : α) : α := epsKrnInv l.cfg l.tab l.u l.s k
 
-/-- `EclHysteresisTwoPhaseLawParams`: drainage + imbibition law, the hysteresis model and — for
-Killough — the static quantities `setDrainageParams` / `setImbibitionParams` take from the scaled
-end-point infos. -/
+/-- the members of the scaled `EclEpsScalingPointsInfo` the hysteresis object reads -/
+def Info.toH (i : Info α) : HystFull.HInfo α :=
+  { Swl := i.Swl, Sgl := i.Sgl, Swcr := i.Swcr, Sgcr := i.Sgcr, Sowcr := i.Sowcr, Sogcr := i.Sogcr, Swu := i.Swu, Sgu := i.Sgu,
+    maxPcow := i.maxPcow, maxPcgo := i.maxPcgo }
+
+/-- `EclHysteresisTwoPhaseLawParams`: drainage + imbibition law, the hysteresis configuration, the
+two-phase system type and the *scaled* end-point infos `setDrainageParams` / `setImbibitionParams`
+take the Killough statics from. -/
 structure HystLaw (α : Type) where
   enabled : Bool
-  model : Nat         -- krHysteresisModel 0 / 1 (Carlson), 2 / 3 (Killough)
+  cfg : HystFull.Cfg α
+  lits : HystFull.Lits α
+  sys : HystFull.Sys
   d : EpsLaw α
   i : EpsLaw α
-  sncrd : α
-  sncri : α
-  snmaxd : α
-  modParam : α
-  tiny : α            -- the literal 1.0e-12 of `finalize()`
+  infoD : HystFull.HInfo α
+  infoI : HystFull.HInfo α
 
-def HystLaw.curves (h : HystLaw α) : Curves α :=
-  { krnD := h.d.krn, krnI := h.i.krn, krnIInv := h.i.krnInv }
+def HystLaw.laws (h : HystLaw α) : HystFull.Laws α :=
+  { krwD := h.d.krw, krnD := h.d.krn, pcD := h.d.pc, krwI := h.i.krw, krnI := h.i.krn, pcI := h.i.pc, krnIInv := h.i.krnInv }
 
-/-- `KrndMax_ = EffLaw::twoPhaseSatKrn(drainageParams(), 1.0 - Snmaxd_)`. -/
-def HystLaw.killough (h : HystLaw α) : Killough.Static α :=
-  { Sncrd := h.sncrd, Sncri := h.sncri, Snmaxd := h.snmaxd, KrndMax := h.d.krn (1 - h.snmaxd),
-    modParam := h.modParam, krnD := h.d.krn, krnI := h.i.krn }
+/-- what `setDrainageParams`, `setImbibitionParams` and `finalize()` leave in the object -/
+def HystLaw.static (h : HystLaw α) : HystFull.Static α := HystFull.mkStatic h.sys h.cfg h.lits h.laws h.infoD h.infoI
 
-/-- `EclHysteresisTwoPhaseLaw::twoPhaseSatKrw`: models 0 and 2 → drainage curve, 1 and 3 →
-imbibition curve. -/
-def HystLaw.krw (h : HystLaw α) (sw : α) : α :=
-  if ¬ h.enabled then h.d.krw sw else if h.model = 0 ∨ h.model = 2 then h.d.krw sw else h.i.krw sw
+abbrev HState (α : Type) := HystFull.State α
 
-/-- `twoPhaseSatPcnw` with capillary-pressure hysteresis off: the drainage curve. -/
-def HystLaw.pc (h : HystLaw α) (sw : α) : α := h.d.pc sw
-
-/-- dynamic state of one two-phase law: the Carlson members and the Killough members -/
-structure HState (α : Type) where
-  c : State α
-  k : Killough.State α
-
+/-- `EclHysteresisTwoPhaseLaw::twoPhaseSatKrw`. -/
+def HystLaw.krw (h : HystLaw α) (st : HState α) (sw : α) : α := HystFull.krw h.cfg h.lits h.laws h.static st sw
+/-- `twoPhaseSatPcnw`. -/
+def HystLaw.pc (h : HystLaw α) (st : HState α) (sw : α) : α := HystFull.pcnw h.cfg h.lits h.laws h.static st sw
 /-- `twoPhaseSatKrn`. -/
-def HystLaw.krn (h : HystLaw α) (st : HState α) (sw : α) : α :=
-  if ¬ h.enabled then h.d.krn sw
-  else if h.model ≤ 1 then Hyst.krn h.curves st.c sw
-  else Killough.krn h.killough st.k sw
-
-/-- state after `finalize()` (start value `krnSwMdc_ = 2.0`) -/
-def HystLaw.init (h : HystLaw α) (start : α) : HState α :=
-  { c := Hyst.init h.curves start, k := Killough.init h.killough h.tiny start }
-
-/-- `update(pcSw, krwSw, krnSw)` restricted to the non-wetting relperm state. -/
-def HystLaw.update (h : HystLaw α) (st : HState α) (krnSw : α) : HState α :=
-  { c := Hyst.update h.curves st.c krnSw, k := Killough.update h.killough h.tiny st.k krnSw }
+def HystLaw.krn (h : HystLaw α) (st : HState α) (sw : α) : α := HystFull.krn h.cfg h.laws h.static st sw
+/-- state after `finalize()` -/
+def HystLaw.init (h : HystLaw α) : HState α := HystFull.init h.cfg h.lits h.laws h.static
+/-- `update(pcSw, krwSw, krnSw)`. -/
+def HystLaw.update (h : HystLaw α) (st : HState α) (t : HystFull.Triple α) : HState α :=
+  HystFull.update h.cfg h.lits h.laws h.static st t
 
 /-! ### The cell: both two-phase laws + `EclDefaultMaterial` -/
 
@@ -349,9 +339,11 @@ structure CellSpec (α : Type) where
   endscale : Bool
   threepoint : Bool
   hyst : Bool
-  model : Nat
+  krModel : Int       -- `EclHysterConfig::krHysteresisModel()` (−1 with flag PC)
+  pcModel : Int       -- `EclHysterConfig::pcHysteresisModel()` (−1 with flag KR)
   modParam : α
-  tiny : α
+  curvature : α
+  lits : HystFull.Lits α
   maskD : List Bool
   tabD : Tables α
   arrD : List α
@@ -366,19 +358,18 @@ def epsLaws (sp : CellSpec α) (tab : Tables α) (mask : List Bool) (arr : List 
    { cfg := configOW sp.endscale sp.threepoint sp.maskD, tab := effOW tab sp.tol, u := pointsOW u, s := pointsOW s },
    { cfg := configGO sp.endscale sp.threepoint sp.maskD, tab := effGO tab sp.tol u.Swl, u := pointsGO u, s := pointsGO s })
 
-/-- `InitParams::run` for one element. The Killough statics are what `setDrainageParams` /
-`setImbibitionParams` read from the *scaled* infos: oil-water `Sncrd = Sowcr`, `Snmaxd = 1 - Swl - Sgl`;
-gas-oil `Sncrd = Sgcr + Swl`, `Snmaxd = Sgu + Swl`; `Sncri` the same expressions on the imbibition info. -/
+/-- `InitParams::run` for one element: drainage laws, imbibition laws (of the IMBNUM region, with the
+`I…` arrays), the hysteresis configuration of the run (disabled: the default-constructed
+`EclHysteresisConfig` with both models −1), oil-water and gas-oil system. -/
 def buildCell (sp : CellSpec α) : Cell α :=
   let d := epsLaws sp sp.tabD sp.maskD sp.arrD
   let i := if sp.hyst then epsLaws sp sp.tabI sp.maskI sp.arrI else d
+  let cfg : HystFull.Cfg α :=
+    if sp.hyst then { enabled := true, krModel := sp.krModel, pcModel := sp.pcModel, modParam := sp.modParam, curvature := sp.curvature }
+    else { enabled := false, krModel := -1, pcModel := -1, modParam := 0, curvature := 0 }
   { swl := d.1.Swl,
-    ow := { enabled := sp.hyst, model := sp.model, d := d.2.1, i := i.2.1,
-            sncrd := d.1.Sowcr, sncri := i.1.Sowcr, snmaxd := 1 - d.1.Swl - d.1.Sgl,
-            modParam := sp.modParam, tiny := sp.tiny },
-    go := { enabled := sp.hyst, model := sp.model, d := d.2.2, i := i.2.2,
-            sncrd := d.1.Sgcr + d.1.Swl, sncri := i.1.Sgcr + i.1.Swl, snmaxd := d.1.Sgu + d.1.Swl,
-            modParam := sp.modParam, tiny := sp.tiny } }
+    ow := { enabled := sp.hyst, cfg := cfg, lits := sp.lits, sys := .ow, d := d.2.1, i := i.2.1, infoD := d.1.toH, infoI := i.1.toH },
+    go := { enabled := sp.hyst, cfg := cfg, lits := sp.lits, sys := .go, d := d.2.2, i := i.2.2, infoD := d.1.toH, infoI := i.1.toH } }
 
 /-- constants of `EclDefaultMaterial::krn`: `epsilon = 1e-5` and the literal 2 -/
 structure Consts (α : Type) where
@@ -394,17 +385,18 @@ structure CellState (α : Type) where
   ow : HState α
   go : HState α
 
-def initState (c : Cell α) (start : α) : CellState α := { ow := c.ow.init start, go := c.go.init start }
+def initState (c : Cell α) : CellState α := { ow := c.ow.init, go := c.go.init }
 
 /-- `std::clamp(sat, 0.0, 1.0)`. -/
 def clamp01 (x : α) : α := if x < 0 then 0 else if 1 < x then 1 else x
 
-/-- `EclDefaultMaterial::updateHysteresis`:
-`oilWater.update(sw, sw, 1 - So)`, `gasOil.update(So, So, 1 - Swco - sg)`. -/
+/-- `EclDefaultMaterial::updateHysteresis` (saturations clamped to `[0,1]`):
+`oilWater.update(pcSw = sw, krwSw = sw, krnSw = 1 - So)`,
+`gasOil.update(pcSw = So, krwSw = So, krnSw = 1 - Swco - sg)`. -/
 def updateCell (c : Cell α) (st : CellState α) (s : Sat α) : CellState α :=
   if ¬ c.ow.enabled then st
-  else { ow := c.ow.update st.ow (1 - clamp01 s.so),
-         go := c.go.update st.go (1 - c.swl - clamp01 s.sg) }
+  else { ow := c.ow.update st.ow { pc := clamp01 s.sw, krw := clamp01 s.sw, krn := 1 - clamp01 s.so },
+         go := c.go.update st.go { pc := clamp01 s.so, krw := clamp01 s.so, krn := 1 - c.swl - clamp01 s.sg } }
 
 /-- `EclDefaultMaterial::krn`: saturation-weighted mean of the two two-phase oil relperms with
 the regularisation near `Sw + Sg = Swco`. -/
@@ -429,11 +421,11 @@ structure Vals (α : Type) where
 
 /-- `relativePermeabilities` + `capillaryPressures` of `EclDefaultMaterial`. -/
 def evalCell (k : Consts α) (c : Cell α) (st : CellState α) (s : Sat α) : Vals α :=
-  { krw := c.ow.krw s.sw,
-    kro := defaultKrn k c.swl (c.ow.krn st.ow) c.go.krw s.sw s.sg,
+  { krw := c.ow.krw st.ow s.sw,
+    kro := defaultKrn k c.swl (c.ow.krn st.ow) (c.go.krw st.go) s.sw s.sg,
     krg := c.go.krn st.go (1 - c.swl - s.sg),
-    pcow := c.ow.pc s.sw,
-    pcgo := c.go.pc (1 - c.swl - s.sg) }
+    pcow := c.ow.pc st.ow s.sw,
+    pcgo := c.go.pc st.go (1 - c.swl - s.sg) }
 
 end
 end OpmVerif.SatDeck
